@@ -19,14 +19,19 @@ tvars == <<vars, tid, l, bad>>
 T == Traces[tid].events
 E == T[l]
 
+ConfOf(c) == [hc |-> [h \in H |-> [reasons |-> Range(c.hc[h].reasons), optional |-> c.hc[h].optional,
+                                    deleted |-> c.hc[h].deleted, retries |-> c.hc[h].retries, mode |-> c.hc[h].mode,
+                                    backoff |-> c.hc[h].backoff]],
+              order |-> c.order, lifecycle |-> c.lifecycle, ctimeout |-> c.ctimeout]
 TInit ==
   /\ tid \in 1..Len(Traces) /\ l = 1 /\ bad = "none"
+  /\ conf = ConfOf(Traces[tid].conf)
   /\ LET i == Traces[tid].init
          o == [exists |-> TRUE, rv |-> 1, ess |-> i.ess, lh |-> 0, prog |-> [h \in H |-> NoRec], fins |-> <<>>,
                deleting |-> FALSE, dummy |-> 0, match |-> i.match]
-     IN /\ obj = o /\ chan = << Snap("ADDED", o) >> /\ bl = <<>>
-        /\ now = i.t
-  /\ up = TRUE /\ stopping = FALSE /\ mem = FreshMem /\ wk = FreshWk /\ pc = "idle" /\ cyc = NoCyc
+     IN /\ obj = o /\ chan = (IF i.up THEN << Snap("ADDED", o) >> ELSE <<>>) /\ bl = <<>>
+        /\ now = i.t /\ up = i.up
+  /\ stopping = FALSE /\ mem = FreshMem /\ wk = FreshWk /\ pc = "idle" /\ cyc = NoCyc
   /\ bud = [edits |-> 0, fails |-> 0, kills |-> 0, stops |-> 0, deletes |-> 0, foreign |-> 0, toggles |-> 0,
             relists |-> 0, holds |-> 0]
   /\ gh = [succ |-> [h \in H |-> 0], seen |-> [h \in H |-> 0], deldone |-> {}, early |-> FALSE,
@@ -59,14 +64,14 @@ TJson    == Ev("json") /\ SrvJson
 TEnd     == Ev("end") /\ Post /\ cyc.rv = E.rv
 TKill    == Ev("kill") /\ Kill
 TStop    == Ev("stop") /\ Stop
-TDown    == Ev("down") /\ IF up THEN Down ELSE UNCHANGED vars
+TDown    == Ev("down") /\ IF up THEN Down ELSE UNCHANGED <<obj, chan, bl, up, stopping, mem, wk, pc, cyc, now, bud, gh>>
 TList    == Ev("list") /\ (IF up THEN Relist ELSE Start)
             /\ (IF E.rv = 0 THEN ~obj.exists ELSE obj.exists /\ obj.rv = E.rv)
-TQuiet   == Ev("quiet") /\ ~ENABLED Urgent /\ UNCHANGED vars
+TQuiet   == Ev("quiet") /\ ~ENABLED Urgent /\ UNCHANGED <<obj, chan, bl, up, stopping, mem, wk, pc, cyc, now, bud, gh>>
 
 Silent == (CWaitWoken \/ CWaitTimeout \/ ProcFinish \/ Reply1 \/ SleepWake \/ SleepExpire) /\ Keep
 Advance == /\ l <= Len(T) /\ E.t > now /\ ~ENABLED Urgent
-           /\ now' = E.t /\ UNCHANGED <<obj, chan, bl, up, stopping, mem, wk, pc, cyc, bud, gh, tid, l>>
+           /\ now' = E.t /\ UNCHANGED <<obj, chan, bl, up, stopping, mem, wk, pc, cyc, bud, gh, conf, tid, l>>
 
 AllInv == InvokeGoverned /\ InvokeCauseOk /\ CloseExactlyWhenDone /\ NeverEarly /\ ForeignUntouched /\ ResumeOnce
 FirstBad == IF ~InvokeGoverned THEN "InvokeGoverned" ELSE IF ~InvokeCauseOk THEN "InvokeCauseOk"
@@ -75,7 +80,7 @@ FirstBad == IF ~InvokeGoverned THEN "InvokeGoverned" ELSE IF ~InvokeCauseOk THEN
 
 TStep == TEdit \/ TDelete \/ TFin \/ TDeliver \/ TBegin \/ TInv \/ TMerge \/ TJson \/ TEnd \/ TKill \/ TStop \/ TDown
          \/ TList \/ TQuiet \/ Silent \/ Advance
-TNext == TStep /\ bad' = (IF bad # "none" THEN bad ELSE FirstBad')
+TNext == TStep /\ conf' = conf /\ bad' = (IF bad # "none" THEN bad ELSE FirstBad')
 TSpec == TInit /\ [][TNext]_tvars
 
 Max2(a, b) == IF a >= b THEN a ELSE b
